@@ -2,10 +2,11 @@
    calculate_new_bits; buidl/block.py hash, target, check_pow; buidl/network.py
    HeadersMessage.is_valid.  Definitions only.
 
-   Python ints are unbounded; 256 ** (exponent - 3) with exponent < 3 is a FLOAT in
-   Python.  [bits_to_target] returns a [pynum]: an int, or the float c / 256^k (exact:
-   c < 2^24 scaled by a power of two).  Everything that needs an int target fails
-   ([Err]) on a float exactly where Python raises (float has no to_bytes). *)
+   bits_to_target (after the fix de6be4c) always returns a Python int or raises:
+   IndexError for empty bits (bits[-1]), ValueError for a negative or an overflowing
+   target.  Block.check_pow (fd08533, de6be4c) catches ValueError ONLY, so the two kinds of
+   exception are kept apart in [bits_to_target_x].  The type [pynum] is kept from the time
+   when exponents below 3 produced a float; [PFloat] is no longer produced. *)
 From V Require Import Base.Prelude Base.Ints Model.Helper Model.Block.
 
 Definition TWO_WEEKS : Z := 60 * 60 * 24 * 14.
@@ -13,21 +14,28 @@ Definition MAX_TARGET : Z := 65535 * 256 ^ (29 - 3).
 
 Inductive pynum := PInt (z : Z) | PFloat (num : Z) (k : Z).   (* PFloat c k = c / 256^k, k > 0 *)
 
-(* helper.py bits_to_target; bits[-1] on b"" raises IndexError; any length is accepted *)
-Definition bits_to_target (bits : bytes) : result pynum :=
+Inductive b2t := B2T_ok (t : Z) | B2T_value_error | B2T_index_error.
+
+(* helper.py bits_to_target; any length of bits is accepted (bits[-1] on b"" raises
+   IndexError, little_endian_to_int(b"") = 0) *)
+Definition bits_to_target_x (bits : bytes) : b2t :=
   match rev bits with
-  | [] => Err
+  | [] => B2T_index_error
   | exponent :: rc =>
-      let coefficient := from_le (rev rc) in
-      if 3 <=? exponent then Ok (PInt (coefficient * 256 ^ (exponent - 3)))
-      else Ok (PFloat coefficient (3 - exponent))
+      let c0 := from_le (rev rc) in
+      let negative := negb (Z.land c0 8388608 =? 0) in             (* coefficient & 0x800000 *)
+      let coefficient := Z.land c0 8388607 in                      (* coefficient &= 0x7FFFFF *)
+      let target := if exponent <? 3 then Z.shiftr coefficient (8 * (3 - exponent))
+                    else coefficient * 256 ^ (exponent - 3) in
+      if negative && negb (target =? 0) then B2T_value_error       (* "negative target" *)
+      else if 2 ^ 256 <=? target then B2T_value_error              (* "target overflows 256 bits" *)
+      else B2T_ok target
   end.
 
-(* int < pynum, exact as in Python's int/float comparison *)
-Definition lt_pynum (a : Z) (t : pynum) : bool :=
-  match t with
-  | PInt z => a <? z
-  | PFloat c k => a * 256 ^ k <? c
+Definition bits_to_target (bits : bytes) : result pynum :=
+  match bits_to_target_x bits with
+  | B2T_ok t => Ok (PInt t)
+  | _ => Err
   end.
 
 Fixpoint lstrip_zero (l : bytes) : bytes :=
@@ -36,15 +44,17 @@ Fixpoint lstrip_zero (l : bytes) : bytes :=
   | [] => []
   end.
 
+(* bytes.ljust(3, b"\x00") *)
+Definition ljust3 (c : bytes) : bytes := c ++ repeatz 0 (3 - length c).
+
 (* helper.py target_to_bits *)
 Definition target_to_bits (target : Z) : result bytes :=
-  raw32 <- int_to_be target 32 ;;
-  match lstrip_zero raw32 with
-  | [] => Err                                           (* raw_bytes[0]: IndexError *)
-  | (b0 :: _) as raw =>
-      if 127 <? b0 then Ok (rev (0 :: firstn 2 raw) ++ [zlen raw + 1])
-      else Ok (rev (firstn 3 raw) ++ [zlen raw])
-  end.
+  raw32 <- int_to_be target 32 ;;                        (* OverflowError outside [0, 2^256) *)
+  let raw := lstrip_zero raw32 in
+  let big := match raw with b0 :: _ => 127 <? b0 | [] => false end in
+  let exponent := if big then zlen raw + 1 else zlen raw in
+  let coefficient := if big then 0 :: firstn 2 raw else firstn 3 raw in
+  Ok (rev (ljust3 coefficient) ++ [exponent]).
 
 (* helper.py calculate_new_bits *)
 Definition calculate_new_bits (previous_bits : bytes) (time_differential : Z) : result bytes :=
@@ -52,7 +62,7 @@ Definition calculate_new_bits (previous_bits : bytes) (time_differential : Z) : 
   let td := if td <? TWO_WEEKS / 4 then TWO_WEEKS / 4 else td in
   t <- bits_to_target previous_bits ;;
   match t with
-  | PFloat _ _ => Err                                   (* float.to_bytes: AttributeError *)
+  | PFloat _ _ => Err                                   (* not produced any more *)
   | PInt prev =>
       let new_target := prev * td / TWO_WEEKS in
       let new_target := if new_target >? MAX_TARGET then MAX_TARGET else new_target in
@@ -66,11 +76,15 @@ Variable hash256 : bytes -> bytes.
 Definition block_hash (h : header) : result bytes :=
   s <- serialize_header h ;; Ok (rev (hash256 s)).
 
-(* Block.check_pow: proof < target *)
+(* Block.check_pow: serialize and hash first, then target() with ValueError -> False,
+   then proof <= target *)
 Definition check_pow (h : header) : result bool :=
   s <- serialize_header h ;;
-  t <- bits_to_target (h_bits h) ;;
-  Ok (lt_pynum (from_le (hash256 s)) t).
+  match bits_to_target_x (h_bits h) with
+  | B2T_ok t => Ok (from_le (hash256 s) <=? t)
+  | B2T_value_error => Ok false
+  | B2T_index_error => Err
+  end.
 
 (* HeadersMessage.is_valid; [last] = None | Some hash, "if last_block and ..." tests
    truthiness (a non-empty bytes object) *)
